@@ -106,6 +106,17 @@ fn decode_host(host: &str) -> Option<Cow<str>> {
     }
 }
 
+/// Returns whether `rp_id` is equal to `host` or is a suffix of it that is cut at a label
+/// separator, e.g. `example.com` for `www.example.com` but not for `evilexample.com`.
+///
+/// The cut is at a separator when the remainder ends with `.` or when `rp_id` itself starts
+/// with one; the latter has an empty first label, which the validity checks that follow
+/// reject as an invalid RP ID.
+fn is_domain_suffix_or_equal(host: &str, rp_id: &str) -> bool {
+    host.strip_suffix(rp_id)
+        .is_some_and(|rest| rest.is_empty() || rest.ends_with('.') || rp_id.starts_with('.'))
+}
+
 /// The origin of a WebAuthn request.
 pub enum Origin<'a> {
     /// A Url, meant for a request in the web browser.
@@ -536,7 +547,7 @@ where
         let mut effective_domain = origin.domain().ok_or(WebauthnError::OriginMissingDomain)?;
 
         if let Some(rp_id) = rp_id {
-            if !effective_domain.ends_with(rp_id) {
+            if !is_domain_suffix_or_equal(effective_domain, rp_id) {
                 return Err(WebauthnError::OriginRpMissmatch);
             }
 
@@ -608,7 +619,7 @@ where
 
         if let Some(rp_id) = rp_id {
             // subset from assert_web_rp_id
-            if !effective_rp_id.ends_with(rp_id) {
+            if !is_domain_suffix_or_equal(effective_rp_id, rp_id) {
                 return Err(WebauthnError::OriginRpMissmatch);
             }
             effective_rp_id = rp_id;
